@@ -22,7 +22,7 @@ ASSUMPTIONS = ['no frequency test: the property claims support and Born probabil
                'only to ~1e-7 and Generator.choice (tolerance ~1.5e-8) rejects them with a ValueError - a clean rejection, not a wrong answer; real float64 '
                'and integer basis states are inside']
 
-KINDS = ['haar', 'product', 'ghz', 'w', 'basis', 'sparse', 'real', 'real_f64', 'basis_int']  # single precision: see ASSUMPTIONS
+KINDS = ['haar', 'product', 'ghz', 'w', 'basis', 'sparse', 'real', 'real_f64', 'basis_int', 'near_certain']  # single precision: see ASSUMPTIONS
 
 
 def _nq():
@@ -54,6 +54,16 @@ def make_state(r, n, kind):
         idx = r.choice(N, size=min(m, N), replace=False)
         v = np.zeros(N, dtype=np.complex128)
         v[idx] = ref.rand_complex(r, len(idx))
+        return v / np.linalg.norm(v)
+    if kind == 'near_certain':
+        # one outcome is almost but not exactly certain: sqrt(1-eps)|b> + i sqrt(eps)|b'> with eps in {1e-11, 1e-9, 1e-6}; the small branch is a real outcome
+        eps = [1e-11, 1e-9, 1e-6][int(r.integers(0, 3))]
+        b0 = int(r.integers(0, N))
+        b1 = (N - 1 - b0) if N > 1 else b0  # all bits flipped: differs on every measured subset
+        v = np.zeros(N, dtype=np.complex128)
+        v[b0] = np.sqrt(1 - eps)
+        if b1 != b0:
+            v[b1] = 1j * np.sqrt(eps)
         return v / np.linalg.norm(v)
     if kind == 'real_f64':  # a real state held in a real dtype
         v = r.normal(size=N)
